@@ -55,6 +55,7 @@ class Extract:
         self.env = {}
         self.stmts = []
         self.nacc = 0
+        self.guard_reads = {}   # ACCn -> Access read inside a guard condition
         self.allocs = {}     # hid -> [extent Rats outermost first] for vec![vec![..; w]; h] allocations
         self.names = {}
         self.acc_init = {}
@@ -113,7 +114,9 @@ class Extract:
                 el_ex = s0["el"] is not None and all(k_ != _e4.FALL for (k_, _) in P.out(s0["el"]))
                 if th_ex != el_ex:
                     try:
-                        g = self.norm(s0["c"], {})
+                        greads = {}
+                        g = self.norm(s0["c"], greads)
+                        self.guard_reads.update(greads)
                     except ValueError:
                         g = Rat.atom("?" + short(pretty(s0["c"]), 60))
                     guards.append(e1.negate_cond(g) if th_ex else g)
@@ -474,6 +477,7 @@ class Extract:
             try:
                 reads = {}
                 g = self.norm(s["c"], reads)
+                self.guard_reads.update(reads)
                 if reads:
                     self._pending_reads = getattr(self, "_pending_reads", {})
                     self._pending_reads.update(reads)
